@@ -321,7 +321,7 @@ theorem encodeFields_lookup' (n : Nat) (sh : Bool) (vals : List (String × GoVal
         simp only [serialised, List.filter_cons]
         simp [hk]
       rw [hser_cons, List.map_cons, List.nodup_cons] at hnd
-      simp only [hv0, ho.1, ho.2, Bool.false_and, Bool.false_eq_true, if_false]
+      simp only [hv0, quoteIf, ho.1, ho.2, Bool.false_and, Bool.false_eq_true, if_false]
       rcases List.mem_cons.mp hf with rfl | hf
       · rw [hv0] at hv
         cases hv
@@ -342,7 +342,8 @@ that decodes to the field's value -/
 theorem decodeFields_spec (n m : Nat) (sh : Bool) (E : List (String × JVal)) :
     ∀ (fs : List Field) (vals : List (String × GoVal)), wtFields env m fs vals = true →
       (∀ f ∈ fs, RoundTrip.isSer f = true → ∀ v, (f.name, v) ∈ vals →
-        ∃ j, E.lookup (RoundTrip.fkey f) = some j ∧ decode env w n (sh && isUnionTy env f.ty) f.ty j = some v) →
+        ∃ j, E.lookup (RoundTrip.fkey f) = some j ∧
+          (Unquote.fieldDoc env f j).bind (decode env w n (sh && isUnionTy env f.ty) f.ty) = some v) →
       decodeFields env w n sh fs E = some vals
   | [], vals, h, _ => by
     have : vals = [] := by simpa [wtFields] using h
@@ -396,6 +397,11 @@ theorem rt_struct (F : FragmentRT env w ds) (n : Nat) (hg : ∀ k, k ≤ n → R
     intro f hf hs fv hfv
     have hlk := lookup_of_mem_nodup vals f.name fv hvnd hfv
     refine ⟨_, encodeFields_lookup' env w n (w.structs.contains q) vals fs hplain hex hnd f hf hs fv hlk, ?_⟩
+    have hnostr : (tagOptions f.tag).contains "string" = false := by
+      have := hplain f hf hs
+      simp only [plainField, Bool.and_eq_true, Bool.not_eq_true'] at this
+      exact this.1.1.2
+    simp only [Unquote.fieldDoc, hnostr, Bool.false_eq_true, if_false, Option.bind_some]
     -- the value of the field is well typed
     obtain ⟨fv', hfv', hwt'⟩ := wtFields_mem env n fs vals hty f hf hs
     have : fv' = fv := by
